@@ -147,7 +147,13 @@ inline Msg gen_request(const Opts &o, int idx, bool first) {
         m.headers.push_back(gen_header(name, m.tag + "-" + gen_value(0, 10), o, true, true));
     }
     if (o.cookies && rcx::chance(1, 4)) { std::string cv; int nc = rcx::range(1, 3); for (int i = 0; i < nc; i++) { if (i) cv += rcx::coin() ? "; " : ";"; cv += "c" + gen_token(1, 3) + (rcx::chance(4, 5) ? "=" + gen_token(0, 5) : ""); } Hdr h; h.name = rand_case("Cookie"); h.lines.push_back(gen_ows(1) + cv); m.headers.push_back(h); }
-    if (o.auth && rcx::chance(1, 5)) { std::string u = "usr" + gen_token(0, 4), p = "pw" + gen_token(0, 4) + (rcx::chance(1, 4) ? ":x" : ""); static const char *b64 = "ABCDEFGHIJKLMNOPQRSTUVWXYZabcdefghijklmnopqrstuvwxyz0123456789+/"; std::string raw = u + ":" + p, enc; for (size_t i = 0; i < raw.size(); i += 3) { unsigned v = (unsigned char)raw[i] << 16; if (i + 1 < raw.size()) v |= (unsigned char)raw[i + 1] << 8; if (i + 2 < raw.size()) v |= (unsigned char)raw[i + 2]; enc += b64[(v >> 18) & 63]; enc += b64[(v >> 12) & 63]; enc += i + 1 < raw.size() ? b64[(v >> 6) & 63] : '='; enc += i + 2 < raw.size() ? b64[v & 63] : '='; } Hdr h; h.name = rand_case("Authorization"); h.lines.push_back(" Basic " + enc); m.headers.push_back(h); }
+    if (o.auth && rcx::chance(1, 5)) { std::string u = "usr" + gen_token(0, 4), p = "pw" + gen_token(0, 4) + (rcx::chance(1, 4) ? ":x" : ""); static const char *b64 = "ABCDEFGHIJKLMNOPQRSTUVWXYZabcdefghijklmnopqrstuvwxyz0123456789+/"; std::string raw = u + ":" + p, enc; for (size_t i = 0; i < raw.size(); i += 3) { unsigned v = (unsigned char)raw[i] << 16; if (i + 1 < raw.size()) v |= (unsigned char)raw[i + 1] << 8; if (i + 2 < raw.size()) v |= (unsigned char)raw[i + 2]; enc += b64[(v >> 18) & 63]; enc += b64[(v >> 12) & 63]; enc += i + 1 < raw.size() ? b64[(v >> 6) & 63] : '='; enc += i + 2 < raw.size() ? b64[v & 63] : '='; } if (rcx::chance(1, 3)) while (!enc.empty() && enc.back() == '=') enc.pop_back(); /* padding omitted */ Hdr h; h.name = rand_case("Authorization");
+        if (rcx::chance(1, 3)) { // Digest: the user name is a quoted string (commas, spaces, '=' and escaped quotes are all legal inside it)
+            static const std::string uc = "abcXYZ019 ,;=.-_@"; std::string un; int n = rcx::range(1, 10); for (int i = 0; i < n; i++) { if (rcx::chance(1, 12)) un += "\\\""; else un += uc[rcx::range(0, (int)uc.size() - 1)]; }
+            std::string pre = rcx::coin() ? "" : "realm=\"r, x\", ", post = rcx::coin() ? ", nonce=\"n1\", uri=\"/\", response=\"0a\"" : "";
+            h.lines.push_back(" Digest " + pre + "username=\"" + un + "\"" + post); }
+        else h.lines.push_back(" Basic " + enc);
+        m.headers.push_back(h); }
     if (wants_body) {
         m.body = gen_body(o, m.tag, o.max_body);
         int fr = (o.chunked && m.version == "HTTP/1.1" && rcx::chance(2, 5)) ? F_CHUNKED : F_CL;
